@@ -37,7 +37,7 @@ fn decode(s: &str) -> Result<Option<Bytes>, String> {
     })
 }
 
-fn payload(rng: &mut Rng, class: u64, len: usize) -> Vec<u8> {
+pub fn payload(rng: &mut Rng, class: u64, len: usize) -> Vec<u8> {
     match class {
         0 => rng.bytes(len),
         1 => vec![0u8; len],
@@ -139,13 +139,13 @@ fn roundtrip(rep: &mut WorkerReport, seed: u64, class: u64, b: &[u8]) {
     }
 }
 
-fn nada_pack(b: &[u8]) -> Vec<u8> {
+pub fn nada_pack(b: &[u8]) -> Vec<u8> {
     let mut v = vec![1u8];
     v.extend_from_slice(&nada::encode(b.iter().cloned()));
     v
 }
 
-fn zstd_pack(b: &[u8], level: i32, with_size: bool) -> Option<Vec<u8>> {
+pub fn zstd_pack(b: &[u8], level: i32, with_size: bool) -> Option<Vec<u8>> {
     let mut dst = vec![0u8; b.len() + b.len() / 8 + 1024];
     let n = if with_size {
         zstd_safe::compress(dst.as_mut_slice(), b, level).ok()?
@@ -351,11 +351,128 @@ fn twin_submissions(ctx: &WorkerCtx, rep: &mut WorkerReport) {
     drop_driver(b);
 }
 
+/// Function-level corpus over the native code the decoders and precompiles reach (zstd, base64,
+/// secp256k1/bitcoin script parsing). No RocksDB, no server: meant to be run under valgrind memcheck.
+pub fn native_corpus() {
+    rpc::set_global_config("signet", false, "http://127.0.0.1:1");
+    let mut rng = Rng::new(0x5eed_c0de);
+    let mut n = 0u64;
+    let mut dec = |b: &[u8]| {
+        let s = BASE64_STANDARD_NO_PAD.encode(b);
+        let r = brc20_prog::verif::decode_bytes_from_inscription_data(&s);
+        n += 1;
+        if let Some(d) = r {
+            assert!(d.len() <= LIMIT, "decoder produced more than the limit");
+        }
+    };
+    for class in 0..7u64 {
+        for len in [0usize, 1, 2, 63, 64, 65, 1000, 5000, 70_000] {
+            let b = payload(&mut rng, class, len);
+            dec(&nada_pack(&b));
+            if let Some(z) = zstd_pack(&b, 3, class % 2 == 0) {
+                dec(&z);
+                for cut in [1usize, 3, z.len() / 2, z.len().saturating_sub(1)] {
+                    dec(&z[..cut.min(z.len())]);
+                }
+                let mut m = z.clone();
+                for _ in 0..6 {
+                    let i = rng.below(m.len() as u64) as usize;
+                    m[i] ^= 1 << rng.below(8);
+                }
+                dec(&m);
+            }
+            let mut raw = vec![0u8];
+            raw.extend_from_slice(&b);
+            dec(&raw);
+        }
+    }
+    let big = vec![0u8; 2 * LIMIT + 17];
+    dec(&zstd_pack(&big, 1, true).unwrap_or_default());
+    dec(&zstd_pack(&big, 1, false).unwrap_or_default());
+    dec(&nada_pack(&big));
+    for p in 0u16..=255 {
+        let mut v = vec![p as u8];
+        v.extend_from_slice(&rng.bytes_upto(30));
+        dec(&v);
+    }
+    // the published encoder (zstd level 22) on a few payloads
+    for class in [0u64, 2, 3] {
+        let b = payload(&mut rng, class, 20_000);
+        if let Ok(s) = Base64Bytes::from_bytes(Bytes::from(b.clone())) {
+            let back = brc20_prog::verif::base64_value(&s);
+            assert_eq!(back.map(|x| x.to_vec()), Some(b.clone()));
+            n += 1;
+        }
+    }
+    // precompile functions called directly
+    use brc20_prog::verif::{bip322_verify_precompile, get_locked_pkscript_precompile, get_op_return_tx_id_precompile, PrecompileCall};
+    let call = |bytes: Vec<u8>| PrecompileCall { bytes: bytes.into(), gas_limit: 10_000_000, block_height: alloy::primitives::U256::from(5u64), current_op_return_tx_id: [7u8; 32].into(), btc_tx_hexes_data: Default::default() };
+    for len in [0usize, 1, 2, 22, 34, 35, 80, 600] {
+        for lock in [0u64, 1, 16, 17, 128, 255, 256, 65535, 65536] {
+            let pk = rng.bytes(len);
+            let _ = get_locked_pkscript_precompile(&call(crate::pre::get_locked_pkscript(&pk, asm::word_u64(lock))));
+            n += 1;
+        }
+    }
+    let pk = hex::decode("00142b05d564e6a7a33c087f16e0f730d1440123799d").unwrap();
+    for sl in [0usize, 1, 64, 107, 108, 400] {
+        let sig = rng.bytes(sl);
+        let _ = bip322_verify_precompile(&call(crate::pre::bip322_verify(&pk, b"Hello World", &sig)));
+        let _ = bip322_verify_precompile(&call(crate::pre::bip322_verify(&rng.bytes_upto(40), &rng.bytes_upto(100), &sig)));
+        n += 2;
+    }
+    for _ in 0..40 {
+        let junk = rng.bytes_upto(300);
+        let _ = bip322_verify_precompile(&call(junk.clone()));
+        let _ = get_locked_pkscript_precompile(&call(junk.clone()));
+        let _ = get_op_return_tx_id_precompile(&call(junk));
+        n += 3;
+    }
+    println!("native-corpus: {} calls", n);
+}
+
+/// Sanitizer pass: the native corpus under valgrind memcheck (one shard).
+fn memcheck_pass(ctx: &WorkerCtx, rep: &mut WorkerReport) {
+    let vg = std::process::Command::new("valgrind").arg("--version").output();
+    if vg.is_err() {
+        rep.notes.push("valgrind not available: memcheck pass skipped".into());
+        return;
+    }
+    let exe = std::env::current_exe().unwrap();
+    let log = rpc::fresh_dir("C15").join("memcheck.log");
+    let out = std::process::Command::new("valgrind")
+        .args(["--error-exitcode=99", "--leak-check=no", "--quiet", &format!("--log-file={}", log.display())])
+        .arg(exe)
+        .arg("native-corpus")
+        .output();
+    match out {
+        Ok(o) => {
+            let code = o.status.code();
+            let text = std::fs::read_to_string(&log).unwrap_or_default();
+            rep.evaluations += 1;
+            if code == Some(99) {
+                let first = text.lines().find(|l| l.contains("Invalid") || l.contains("uninitialised") || l.contains("Mismatched")).unwrap_or("").to_string();
+                let frame = text.lines().find(|l| l.contains(" at 0x") || l.contains(" by 0x")).unwrap_or("").to_string();
+                violation(rep, "C15", ctx.seed, &format!("memcheck:{}", first.split("==").last().unwrap_or("").trim().chars().take(40).collect::<String>()), format!("valgrind memcheck reported an error on the decoder/precompile corpus: {} {}", first, frame), json!({"log": text.chars().take(4000).collect::<String>()}));
+            } else if code == Some(0) {
+                rep.nontrivial("memcheck-clean-native-corpus".to_string());
+                rep.notes.push(format!("valgrind memcheck: native corpus clean ({})", String::from_utf8_lossy(&o.stdout).trim()));
+            } else {
+                rep.inconclusive(format!("valgrind run ended with {:?}: {}", code, text.chars().take(300).collect::<String>()));
+            }
+        }
+        Err(e) => rep.notes.push(format!("valgrind could not be run: {}", e)),
+    }
+}
+
 pub fn worker(ctx: &WorkerCtx) -> WorkerReport {
     let (net, traces) = net_for_shard(ctx.shard);
     crate::setup_env(net, traces);
     let mut rep = WorkerReport::default();
     direct(ctx, &mut rep);
     twin_submissions(ctx, &mut rep);
+    if ctx.shard == 1 {
+        memcheck_pass(ctx, &mut rep);
+    }
     rep
 }
